@@ -48,6 +48,10 @@ pub struct Case {
     pub faults: Vec<Fault>,
     /// stream mode: sizes of successive reads (cycled); datagram mode: sizes of successive datagrams
     pub cuts: Vec<usize>,
+    /// cancellation fault: the octets arrive piece by piece (pieces as in `cuts`) and after each listed piece the pending
+    /// `read_frame` future is dropped and a new one created, as the session loops do when something else wakes them
+    #[serde(default)]
+    pub cancel_after: Vec<usize>,
 }
 
 pub struct LinkScenario;
@@ -455,6 +459,13 @@ impl Scenario for LinkScenario {
                     .collect(),
             }
         };
+        // in a quarter of the runs the read is cancelled and restarted between pieces
+        let cancel_after: Vec<usize> = if rng.chance(1, 4) {
+            let n = rng.urange(1, 6);
+            (0..n).map(|_| rng.urange(0, 12)).collect()
+        } else {
+            Vec::new()
+        };
         Case {
             close_mode,
             datagram,
@@ -462,6 +473,7 @@ impl Scenario for LinkScenario {
             segments,
             faults,
             cuts,
+            cancel_after,
         }
     }
 
@@ -479,6 +491,13 @@ impl Scenario for LinkScenario {
             let mut c = case.clone();
             c.faults = f;
             out.push(c);
+        }
+        if !case.cancel_after.is_empty() {
+            for ca in shrink_vec(&case.cancel_after) {
+                let mut c = case.clone();
+                c.cancel_after = ca;
+                out.push(c);
+            }
         }
         if case.cuts.len() > 1 {
             for cuts in shrink_vec(&case.cuts) {
@@ -568,9 +587,19 @@ impl Scenario for LinkScenario {
         } else {
             vec![stream.clone()]
         };
+        let cancelling = !case.cancel_after.is_empty();
+        // with the cancellation fault the pieces are pushed one at a time, so that the reader goes to sleep in between
+        let pieces: Vec<Vec<u8>> = if cancelling && !case.datagram {
+            split_datagrams(&stream, &case.cuts, usize::MAX)
+        } else {
+            datagrams.clone()
+        };
+        let cancel_after = case.cancel_after.clone();
+        let cancel = Arc::new(tokio::sync::Notify::new());
+        let cancel2 = cancel.clone();
         let sock = SimSocket::new("reader", inbox.clone(), outbox, ChunkMode::All, 0)
             .datagram(case.datagram)
-            .with_plan(if case.datagram {
+            .with_plan(if case.datagram || cancelling {
                 Vec::new()
             } else {
                 case.cuts.clone()
@@ -588,10 +617,18 @@ impl Scenario for LinkScenario {
                 let mut reader = Reader::new(modes, frag_size);
                 let mut payload = FramePayload::new();
                 loop {
-                    match reader
-                        .read_frame(&mut phys, &mut payload, DecodeLevel::nothing())
-                        .await
-                    {
+                    let res = tokio::select! {
+                        biased;
+                        _ = cancel2.notified() => {
+                            // the read future is dropped here; by the library's own contract no state is lost
+                            if let Some(core) = kernel::current() {
+                                core.count("fault.read_future_cancelled", 1);
+                            }
+                            continue;
+                        }
+                        r = reader.read_frame(&mut phys, &mut payload, DecodeLevel::nothing()) => r,
+                    };
+                    match res {
                         Ok((header, _)) => {
                             d2.lock().unwrap().frames.push(RefFrame {
                                 ctrl: header.control.to_u8(),
@@ -607,8 +644,19 @@ impl Scenario for LinkScenario {
                     }
                 }
             });
-            for d in datagrams {
-                io::chan_push(&inbox, 0, d);
+            if cancelling {
+                for (k, d) in pieces.into_iter().enumerate() {
+                    io::chan_push(&inbox, 0, d);
+                    sim.settle().await;
+                    if cancel_after.contains(&k) {
+                        cancel.notify_one();
+                        sim.settle().await;
+                    }
+                }
+            } else {
+                for d in datagrams {
+                    io::chan_push(&inbox, 0, d);
+                }
             }
             io::chan_close(&inbox, CloseKind::Eof);
             sim.settle().await;
@@ -782,6 +830,10 @@ impl Scenario for LinkScenario {
         outcome.count(
             "fault.rechunk",
             report.counters.get("phys_reads").copied().unwrap_or(0),
+        );
+        outcome.count(
+            "fault.read_future_cancelled",
+            report.counters.get("fault.read_future_cancelled").copied().unwrap_or(0),
         );
         outcome.count("frames_sent", built.frames.len() as u64);
         outcome.count("frames_delivered", got.frames.len() as u64);
